@@ -7,7 +7,7 @@
 use serde_json::{json, Value};
 
 /// Re-spellings of one string that a lenient reader or writer might take for "the same".
-pub const RESPELLINGS: [&str; 12] = ["slash->backslash", "backslash->slash", "upper", "lower", "first-letter-case", "trailing-space", "trailing-nul", "trailing-slash", "leading-dot-slash", "doubled-slash", "decomposed", "leading-space"];
+pub const RESPELLINGS: [&str; 15] = ["slash->backslash", "backslash->slash", "upper", "lower", "first-letter-case", "trailing-space", "trailing-nul", "trailing-slash", "leading-dot-slash", "doubled-slash", "decomposed", "leading-space", "first-char+256", "last-char+256", "last-char+65536"];
 /// Edits of an integer: wrap-around distances of the usual widths, neighbours, sign.
 pub const NUMBER_EDITS: [&str; 9] = ["+1", "-1", "negated", "+2^8", "+2^16", "+2^31", "+2^32", "-2^32", "+2^63"];
 /// Edits of null / empty values / booleans and of a member as a whole.
@@ -31,6 +31,17 @@ pub fn respell(cur: &str, kind: &str) -> Option<String> {
         "trailing-slash" => format!("{cur}/"),
         "leading-dot-slash" => format!("./{cur}"),
         "doubled-slash" => cur.replace('/', "//"),
+        // the character 256 (65536) code points further on: equal in its low byte (low 16 bits)
+        "first-char+256" => {
+            let c = cur.chars().next()?;
+            let twin = char::from_u32(c as u32 + 0x100)?;
+            format!("{twin}{}", &cur[c.len_utf8()..])
+        }
+        "last-char+256" | "last-char+65536" => {
+            let c = cur.chars().last()?;
+            let twin = char::from_u32(c as u32 + if kind == "last-char+256" { 0x100 } else { 0x10000 })?;
+            format!("{}{twin}", &cur[..cur.len() - c.len_utf8()])
+        }
         // U+00E9 -> 'e' + U+0301 (canonically equivalent, different code points)
         "decomposed" => cur.replace('\u{e9}', "e\u{301}"),
         _ => return None,
